@@ -1,5 +1,5 @@
 /-
-C18 CODE MODEL of the validators BEFORE repair C18-01 (txdbus/marshal.py at commit 839b5f3):
+C18 CODE MODEL of the validators BEFORE repairs C18-01 / C18-02 (txdbus/marshal.py at commit 839b5f3):
 `validateInterfaceName` without the end-of-name check, `validateBusName` without the
 end-of-name, inner-colon and empty-unique-element checks.  Kept only for the witness theorems
 (`prefix_*` in Properties/C18.lean): the inputs on which the unrepaired code violates C18.
